@@ -1,15 +1,19 @@
 """C41 Provider load limiting admits, runs and answers each request once. (DESIGN.md section 4, C41)
 
-M: Limiter.tla exhaustively (callers of both buckets, the queue worker, cancel / expired-deadline environment;
-   labels = yield points of resource_limiter.go) - invariants Bounded, AtMostOnce, OkMeansRan, NoForeignResult,
-   ErrMeansNotRun, Released, Counters, deadlock freedom.
+M: Limiter.tla exhaustively, modelling the code AS IT IS (FixF10 = FALSE): callers of both buckets, the queue worker,
+   cancel / queue-deadline environment; labels = yield points of resource_limiter.go. Invariants Bounded, AtMostOnce,
+   OkMeansRan, NoForeignResult, Released, Counters, deadlock freedom, and ErrMeansNotRunModF10 = ErrMeansNotRun with
+   exactly the open finding F10 tolerated (Limiter_fixF10.cfg: with the hand-off the strict ErrMeansNotRun holds).
 G: schedules (scenario + sequence of process names) from TLC: -simulate (seeded) in both tiers, plus the
    exhaustive enumeration of every schedule of the small scenarios ScnEnum in the thorough tier.
 R: harness/cmd/limiter replays every schedule with a gate scheduler on the real ResourceLimiter
    (hooks/rpcprovider_limiter.patch) and logs the projected state after every step.
-V: TLC validates the recorded trace: Obs mode evaluates the C41 invariants on the real states (violation =
-   statement about the code, re-executed before it is reported); Conf mode requires every real step to be
-   the spec's step (rejection = the model no longer predicts the code: exit 2, never a violation).
+V: TLC validates the recorded trace (Trace_Limiter.cfg): pass 1 Conf mode with the invariants on; if it does not go
+   through, pass 2 Obs mode decides between a violation on the real states (re-executed, then VIOLATION) and drift
+   (exit 2). Then the property as stated: one witness per class of "caller got an error although its request ran" seen in
+   the traces is re-executed alone and decided by TLC with the strict ErrMeansNotRun (Trace_Limiter_strict.cfg); its
+   signature (caller-cancelled-after-exec-started / deadline-after-exec-started = open known findings F10-a/b,
+   anything else = VIOLATION) is derived from the violating real state.
 """
 import json
 import os
@@ -21,8 +25,8 @@ CALLER_LABELS = {"exec", "presend", "waiting", "fin"}
 WORKER_LABELS = {"idle", "checked", "exec", "send"}
 REPRO_TRIES = 8   # a Go select with two ready cases picks one at random
 CTX_WHY = {"canceled": "caller-cancelled-after-exec-started",
-           "queue_timeout": "queue-deadline-after-exec-started",
-           "deadline_exceeded": "queue-deadline-after-exec-started"}
+           "queue_timeout": "deadline-after-exec-started",
+           "deadline_exceeded": "deadline-after-exec-started"}
 TOLERANT, STRICT = "Trace_Limiter.cfg", "Trace_Limiter_strict.cfg"
 
 
@@ -58,10 +62,11 @@ def _f10_class(prev, r):
         return c, "request-executed-after-caller-got-error:" + why.split(":")[0]
     if (why in CTX_WHY and r["exret"].get(c, -1) >= 1 and prev["exec"].get(c, 0) >= 1 and r["first"].get(c) != "none"
             and prev["pc"].get(c) == "waiting"):
-        if why == "canceled" and r["first"].get(c) != "cancel":
-            return c, "ErrMeansNotRun:canceled-without-cancel"
-        if why != "canceled" and r["first"].get(c) != "deadline":
-            return c, "ErrMeansNotRun:deadline-without-deadline"
+        first, canc = r["first"].get(c), bool(r["canc"].get(c))
+        expected = {"canceled": first == "cancel", "queue_timeout": first == "deadline" and not canc,
+                    "deadline_exceeded": first == "pdeadline" or (first == "deadline" and canc)}[why]
+        if not expected:   # not the error that the ctx case returns in this situation
+            return c, "caller-got-error-but-request-ran:unexpected-%s" % why
         return c, CTX_WHY[why]
     return c, "caller-got-error-but-request-ran:" + why.split(":")[0]
 
@@ -184,6 +189,17 @@ def _f10_witnesses(rows, behs):
     return {sig: [behs[bi] for _, _, bi in sorted(v)[:3]] for sig, v in cands.items()}
 
 
+def _directed(ctx):
+    """TLC's shortest counter-examples to 'no F10 of that class' (design level), as schedules to replay on the real code"""
+    res = {}
+    for cfg, sig in (("Limiter_witcancel.cfg", CTX_WHY["canceled"]), ("Limiter_witdeadline.cfg", CTX_WHY["deadline_exceeded"])):
+        r = vlib.tlc_mc(ctx, "Limiter", cfg, workers=1, timeout=600, tag="Limiter_" + cfg.split("_")[1].split(".")[0])
+        b = [_norm(x) for x in vlib.parse_emitted(r["out"])]
+        if r["violated"] and b:
+            res[sig] = b[:1]
+    return res
+
+
 def _decide(ctx, behs, tag):
     bad, st, rows = _replay(ctx, behs, tag)
     if bad:
@@ -199,7 +215,10 @@ def _decide(ctx, behs, tag):
     # the property as stated (ErrMeansNotRun without tolerance): every class of witness seen in the traces is re-executed
     # alone and decided by TLC with the strict configuration; its signature decides known finding vs. violation
     seen = {}
-    for sig, cand in sorted(_f10_witnesses(rows, behs).items()):
+    cands = _f10_witnesses(rows, behs)
+    for sig, b in _directed(ctx).items():
+        cands[sig] = b + cands.get(sig, [])
+    for sig, cand in sorted(cands.items()):
         got = None
         for i, beh in enumerate(cand * 2):
             got, _, _ = _replay(ctx, [beh], "%s_f10_%d_%d" % (tag, len(seen), i), conf=False, cfg=STRICT)
@@ -240,7 +259,7 @@ def run(ctx):
             uniq.append(b)
     behs = uniq
     ctx.cov["evaluations"] = len(behs)
-    ctx.cov["rule"] = ("schedule = scenario (limits, caller kinds, queue deadlines never/expired/late, cancel and deadline events) + sequence of process names "
+    ctx.cov["rule"] = ("schedule = scenario (limits, caller kinds, queue deadlines never/expired, cancel and caller-deadline events) + sequence of process names "
                        "chosen by TLC (-simulate seed=%d over ScnAll%s); non-trivial = some request goes through the queue "
                        "(the worker is scheduled); distinct by scenario+schedule" % (
                            ctx.seed, "" if ctx.quick else " + every schedule of ScnEnum"))
@@ -249,8 +268,9 @@ def run(ctx):
     ctx.assumptions += [
         "goroutines are parked before every blocking channel / semaphore operation and released only when the spec says the "
         "operation will not block (a worker registered as semaphore waiter is represented by the worker parked before Acquire)",
-        "the 30 s queue deadline is 'never', 'already expired at enqueue' or a 300 ms real timer whose expiry is an environment "
-        "step (behaviours in which it could fire earlier are discarded); cancellation happens at any step",
+        "the 30 s queue deadline is 'never' or 'already expired at enqueue'; a deadline firing later is represented by the "
+        "caller's own context deadline (same ctx mechanism, fired deterministically as an environment step, no real timer); "
+        "cancellation / deadline expiry happen at any step",
         "code between two yield points runs atomically in the replay; bounded scenarios (specs/Limiter.tla Scn*)",
         "yield points are the hooks of hooks/rpcprovider_limiter.patch (build tag verif)",
     ]
